@@ -1,3 +1,4 @@
+pub mod rand { pub mod rngs { use vstd::prelude::*; pub struct OsRng; } }
 // ---------------------------------------------------------------------------------------
 // chain_crypto.rs — crate::crypto (crypto/mod.rs, crypto/ed25519.rs, crypto/p256.rs)
 // ---------------------------------------------------------------------------------------
@@ -256,10 +257,20 @@ pub mod crypto {
         fn eq(&self, other: &PublicKey) -> bool { unimplemented!() }
     }
 
+    // ORACLE (C15, "fresh random next key per block"): the key pair the operating-system RNG yields. The RNG is modelled as a
+    // name, NOT as a source of entropy: nothing about freshness, uniqueness or unpredictability is claimed, only WHICH key
+    // a function uses.
+    pub uninterp spec fn rng_keypair(algorithm: Algorithm) -> KeyPair;
     impl KeyPair {
         pub open spec fn wf(self) -> bool {
             match self { KeyPair::Ed25519(k) => k.wf(), KeyPair::P256(k) => k.wf() }
         }
+        // ASSUMED (crypto/mod.rs new_with_rng + rand): key generation from the OS RNG returns a well-formed key pair of the
+        // requested algorithm
+        #[verifier::external_body]
+        pub fn new_with_rng(algorithm: Algorithm, rng: &mut crate::rand::rngs::OsRng) -> (r: KeyPair)
+            ensures r == rng_keypair(algorithm), r.wf(), (algorithm is Ed25519 <==> r is Ed25519)
+        { unimplemented!() }
         //@extract biscuit-auth/src/crypto/mod.rs :: impl KeyPair :: fn from
         //@ ensures from: r == kp_of(*key)
         //@ ensures wf: r.wf()
